@@ -2,7 +2,7 @@ SPECIFICATION FineFair
 CONSTANTS
   Cons = {"s1", "s2"}
   Healthy = {}
-  N = 1
+  N = 2
   HCap = 64
   Parts = 1
   WsMode = FALSE
